@@ -23,6 +23,7 @@ var c03Inflight = map[string]string{
 	"after":   "delay=2300ms", // would be done at t_d + D + 0.1s
 	"never":   "hang",
 	"upgrade": "upgrade",
+	"offer":   "delay=600ms", // offers a protocol upgrade (Connection: Upgrade) that the target does not take; done at t_d + 0.5s
 }
 
 type c03cfg struct {
@@ -41,7 +42,7 @@ func c03Configs(tier string) []c03cfg {
 	if tier == "quick" {
 		var cfgs []c03cfg
 		for _, cmd := range []string{"redeploy", "pause", "stop"} {
-			for _, in := range [][]string{nil, {"early"}, {"never"}, {"upgrade"}, {"after"}, {"before", "never"}} {
+			for _, in := range [][]string{nil, {"early"}, {"never"}, {"upgrade"}, {"after"}, {"before", "never"}, {"offer"}} {
 				for _, l := range [][]string{{"quick"}, {"long"}} {
 					if in == nil && l[0] == "quick" {
 						continue
@@ -56,7 +57,7 @@ func c03Configs(tier string) []c03cfg {
 		return cfgs
 	}
 
-	kinds := []string{"early", "before", "after", "never", "upgrade"}
+	kinds := []string{"early", "before", "after", "never", "upgrade", "offer"}
 	var sets [][]string
 	sets = append(sets, nil)
 	for _, k := range kinds {
@@ -170,6 +171,9 @@ func c03Scenario(c c03cfg) *Scenario {
 			if k == "upgrade" {
 				spec.Upgrade = true
 			}
+			if k == "offer" {
+				spec.Header = [][2]string{{"Connection", "Upgrade, HTTP2-Settings"}, {"Upgrade", "h2c"}, {"HTTP2-Settings", "AAMAAABkAARAAAAAAAIAAAAA"}}
+			}
 			if c.rollout && i%2 == 1 {
 				spec.Cookie = "kamal-rollout=v"
 			}
@@ -268,7 +272,7 @@ func c03Scenario(c c03cfg) *Scenario {
 				continue
 			}
 			switch k {
-			case "early", "before":
+			case "early", "before", "offer":
 				if r.Status != 200 || r.Aborted || !r.Done || r.ServedBy() == "" {
 					vs = append(vs, Violation{"C03", "Q3 in-flight-request-cut-short", fmt.Sprintf("%s (finishing before the drain deadline) got %s", r.ID, r.Summary())})
 				}
